@@ -1,4 +1,5 @@
 import asyncio
+import fractions
 import inspect
 import time
 
@@ -25,6 +26,19 @@ from qtoggleserver.slaves import devices as slaves_devices
 from qtoggleserver.slaves import ports as slaves_ports
 from qtoggleserver.utils import asyncio as asyncio_utils
 from qtoggleserver.utils import json as json_utils
+
+
+def _on_step_grid(value: PortValue, min_: float, step: float) -> bool:
+    # Tell whether value lies on the grid min_ + k * step. The test is done exactly, on the decimal representations of
+    # the numbers: binary floats cannot represent steps such as 0.1, which makes (0.3 - 0) % 0.1 non-zero.
+    try:
+        value, min_, step = (
+            fractions.Fraction(repr(n)) if isinstance(n, float) else fractions.Fraction(n) for n in (value, min_, step)
+        )
+    except ValueError:  # NaN or infinity
+        return False
+
+    return not (value - min_) % step
 
 
 async def add_virtual_port(attrs: GenericJSONDict) -> core_ports.BasePort:
@@ -329,7 +343,7 @@ async def patch_port_value(request: core_api.APIRequest, port_id: str, params: P
     # Step validation
     step = await port.get_attr('step')
     min_ = await port.get_attr('min')
-    if None not in (step, min_) and step != 0 and (value - min_) % step:
+    if None not in (step, min_) and step != 0 and not _on_step_grid(value, min_, step):
         raise core_api.APIError(400, 'invalid-value')
 
     if not port.is_enabled():
@@ -387,7 +401,7 @@ async def patch_port_sequence(request: core_api.APIRequest, port_id: str, params
             raise core_api.APIError(400, 'invalid-field', field='values') from None
 
         # Step validation
-        if None not in (step, min_) and step != 0 and (value - min_) % step:
+        if None not in (step, min_) and step != 0 and not _on_step_grid(value, min_, step):
             raise core_api.APIError(400, 'invalid-field', field='values')
 
     if not port.is_enabled():
